@@ -185,3 +185,52 @@ def layout_program(rng):
         pad = max(0, col - len(head)) if head else col
         return head + " " * max(pad, 1 if head else 0) + cmds[-1] if head else " " * col + cmds[-1]
     return head + "\n" * nl + " " * col + cmds[-1]
+
+
+# ---- programs that print a given text, and programs that print a lot ----
+def push_cp(v):
+    """one 형-kind command leaving the code point v on the selected stack (syllables x dots = v), or two and a sum"""
+    if v == 0:
+        return "형"
+    best = None
+    for h in range(1, 2001):
+        if v % h == 0 and v // h <= 2000:
+            if best is None or h + v // h < best[0] + best[1]:
+                best = (h, v // h)
+    if best is None:
+        return push_cp(v - 1) + " 형. 하앙..."            # (v-1) + 1
+    syl, dots = best
+    return ("형" if syl == 1 else "혀" + "어" * (syl - 2) + "엉") + "." * dots
+
+
+def print_text_program(text, stream=1):
+    """pushes every character of the text and prints it on stdout (1) or stderr (2), in order"""
+    return " ".join(push_cp(ord(c)) + " 항" + "." * stream for c in text)
+
+
+# texts whose bytes a display layer, a format string or a "text mode" would change
+OUTPUT_TEXTS = ["A\r\nB", "\r\n", "\n\r", "\r", "a \t \n", " ", "\t", "\n", "\u0085", " x", "{}", "{0}{{", "%s%%", "\\n\\", "\"'", "\x00",
+                "﻿x", "x﻿", "\x1b[31mred\x1b[0m", "\x08\x7f", "é", "형", "​", "a b", "ß→SS", "İi"]
+
+
+def output_text_cases(rng):
+    out = []
+    for t in OUTPUT_TEXTS:
+        stream = rng.choice([1, 1, 2])
+        # everything before the first read is folded at level 2; the same text again after a read
+        out.append(("output-text", print_text_program(t, stream) + " 흑 항. 흑... " + print_text_program(t, 3 - stream), "q\n"))
+    return out
+
+
+def bulk_output_program(n, cp, read_after=True):
+    """n copies of one character written by n separate commands (one 흐…윽 puts the copies on stack 3), then a read: crosses
+    the 4 KiB / 8 KiB / 64 KiB marks of buffers between the program and the terminal"""
+    prog = [push_cp(cp), "흐" + "으" * (n - 2) + "윽..."] + ["항."] * n
+    if read_after:
+        prog += ["흑", "항.", "흑...", push_cp(66), "항."]
+    return " ".join(prog)
+
+
+def bulk_output_cases(thorough=False):
+    sizes = [(4200, 65), (2200, 0xE9), (1500, 0xD55C), (1100, 0x1F642)] + ([(17000, 0x1F642), (70000, 65)] if thorough else [])
+    return [("bulk-output", bulk_output_program(n, cp), "z\n") for n, cp in sizes]
